@@ -427,7 +427,9 @@ fn worker(i: usize, n: usize, thorough: bool) {
         if idx % n != i {
             continue;
         }
-        explore_program(p, bound, &mut st);
+        // three-thread programs: bound 2 (bound 3 took 26 min in the thorough tier)
+        let b = if p.threads.len() >= 3 { bound.min(2) } else { bound };
+        explore_program(p, b, &mut st);
     }
     par::emit_result(&st);
 }
